@@ -57,6 +57,9 @@ var synthOpts = map[string]Target{
 	"LocalIdentity": {LocalErrorIdentity: []string{"errLimit", "errHalt"}},
 	"decode":        {Oracle: true, OutParams: []string{"v"}},
 	"fillFrom":      {NonNil: true, InstantiateAny: []string{"out"}},
+	"record":        {NonNil: true},
+	"stepFailed":    {NonNil: true},
+	"counterOf":     {NonNil: true},
 	"emit":          {Oracle: true, Effect: true},
 	"tryEmit":       {Oracle: true, Effect: true},
 }
@@ -72,6 +75,9 @@ var synthOracles = map[string]func(g *gen, args []reflect.Value) []string{
 	},
 	"StoreOf": func(g *gen, args []reflect.Value) []string {
 		return []string{"string", storeLoad, "(fun m => MemStore_Prefix m)", "(fun m => MemStore_Prefix m)"}
+	},
+	"EffectPages": func(g *gen, args []reflect.Value) []string {
+		return append(pagesOracle(g, args), eventOracles(g, args)...)
 	},
 	"Effects":    eventOracles,
 	"EffectTail": eventOracles,
